@@ -38,7 +38,7 @@ COMPS = [
     ("group", "GroupProxNewton", "LogisticGroup", "WeightedGroupL2"),
     ("multitask", "MultiTaskBCD", "QuadraticMultiTask", "L2_1"), ("multitask", "MultiTaskBCD", "QuadraticMultiTask", "BlockMCPenalty"),
 ]
-QUICK = {0, 1, 2, 3, 5, 6, 8, 12, 13, 15, 17, 19, 20, 21, 22}
+QUICK = {0, 1, 2, 3, 5, 6, 8, 9, 12, 13, 15, 17, 19, 20, 21, 22}
 REWEIGHT = ["L0_5", "L2_3", "LogSumPenalty"]
 
 
